@@ -32,6 +32,8 @@ func runC06(c *Ctx) {
 	c06Gen(c)
 	rootOnce(c)
 	scanTotal(c)
+	// every element goroutine is joined before the list is inspected (C05/wg-accounting)
+	c05WG(c)
 }
 
 // guardedFields lists struct fields and the mutex field that must be held to touch them.
